@@ -31,7 +31,7 @@ ASSUMPTIONS = [
     "a recomputed loss within 1e-12 relative of the recorded one counts as equal (BLAS summation order may depend on buffer alignment); counted as loss_ulp_wobble",
     "third-party estimator failures on extreme histories end the run early (counted), they are C11's subject, not C02's",
 ]
-REQUIRED_COUNTERS = {"rl_scheduled_runs": 5, "failed_batches_then_continued": 5, "model_invocations_matched": 200, "runs_with_repeated_proposals": 5, "runs_with_tied_losses": 4, "runs": 30, "rows_checked": 200, "members_decoded": 300, "losses_recomputed": 200, "snapshots": 100,
+REQUIRED_COUNTERS = {"runs_converging_every_batch": 5, "rl_scheduled_runs": 5, "failed_batches_then_continued": 5, "model_invocations_matched": 200, "runs_with_repeated_proposals": 5, "runs_with_tied_losses": 4, "runs": 30, "rows_checked": 200, "members_decoded": 300, "losses_recomputed": 200, "snapshots": 100,
                      "multi_call_runs": 10, "extreme_runs": 5, "tile_repeat_distinguishable": 5}
 SHARDS = {"quick": 16, "thorough": 16}
 SHARD_WATCHDOG = {"quick": 1500, "thorough": 10800}
@@ -70,6 +70,10 @@ def run_case(desc, ctx):
                     d_["kind"] = "RSequence"
                 seen_h = True
         c["rl_scheduled_runs"] = 1
+    always_converged = desc["i"] % 9 == 7 and not rl    # every batch meets the convergence criterion: each call returns after one batch
+    if always_converged:
+        cfg["conv"] = 2
+        c["runs_converging_every_batch"] = 1
     calls = [int(x) for x in rng.integers(1, 4, size=int(rng.integers(1, 5)))]
     wit = {"config": cfg, "calls": calls, "n_jobs": n_jobs, "user_loss_with_ties": tied}
     model_fn = CG.model_for(cfg)
@@ -83,6 +87,9 @@ def run_case(desc, ctx):
                 user_loss = TiedLoss(p=2)
             cal = CG.build_calibrator(cfg, n_jobs=n_jobs, model=counting, loss=user_loss)
             pristine = CM.pristine(cal.loss_function)
+            if always_converged:
+                cal.check_convergence = lambda *a, **k: True
+                wit["convergence_met_by_every_batch"] = True
     except Exception as e:  # noqa: BLE001
         out["violations"].append({"msg": f"constructor raised {type(e).__name__}: {e}", "witness": wit})
         return out
@@ -131,8 +138,11 @@ def run_case(desc, ctx):
                     cal.model = good
             try:
                 with quiet(), G.time_limit(G.LIMIT):
-                    cal.calibrate(n)
-                done_batches += n
+                    ret_now = cal.calibrate(n)
+                done_batches += 1 if always_converged else n
+                # what is handed back belongs to the caller: it may sort / rescale it without touching the records
+                if isinstance(ret_now, tuple) and len(ret_now) == 2 and (np.shares_memory(ret_now[0], cal.params_samp) or np.shares_memory(ret_now[1], cal.losses_samp)):
+                    out["violations"].append({"msg": "calibrate() returned arrays that share memory with the recorded history (a caller sorting its result would rewrite recorded rows)", "witness": wit})
             except G.Timeout:
                 c["third_party_timeout"] = c.get("third_party_timeout", 0) + 1
                 break
@@ -189,7 +199,7 @@ def run_case(desc, ctx):
         if e[0] == "return":
             last_ret = e
     rets = [e for e in mon.events if e[0] == "return"]
-    if rets and done_batches == sum(calls):
+    if rets and done_batches == (len(calls) if always_converged else sum(calls)):
         bad += CM.check_return(cal, rets[-1][1], rets[-1][2])
     if cal.current_batch_index != done_batches and "ended_by" not in wit and c.get("third_party_timeout", 0) == 0:
         bad.append(f"current_batch_index {cal.current_batch_index} after {done_batches} completed batches")
